@@ -11,7 +11,6 @@ Two uses:
     order, labelled when they are inserted) is compared with the specification's cache after every step.
 """
 import json
-import os
 
 import sqlalchemy as sa
 
@@ -368,7 +367,7 @@ class Driver:
     def finish(self, state):
         """drain: every entry left in the cache is hit once more with every valuation that has its key and must deliver THAT valuation's
         values and rows (hits never evict, so all entries stay)"""
-        ctx, E = self.ctx, self.ctx.E
+        E = self.ctx.E
         for ent in state["c"]:
             name, p0, m = ent
             if name == "selectin":
